@@ -1,11 +1,124 @@
 import E3fpVerif.Model.Fprinter
+import E3fpVerif.Lemmas.Rigid
+/-!
+# C01: the fingerprint of a conformer is invariant under rigid motion
+
+`run_congr`: `runFp` depends on a `Geo` only through its two fields.  The remaining theorems are
+about the real-number instance of `Scalar` (`Lemmas/RealScalar.lean`): moving every atom by the same
+rotation and translation leaves both fields of `Geo.ofCoords` unchanged, hence the fingerprint at
+every level; with stereo off the same holds for every isometry, reflections included.
+-/
 namespace E3fpVerif.Props.C01
-open E3fpVerif
+open E3fpVerif E3fpVerif.Rigid
 
 /-- the fingerprint is a function of the geometric decisions only: two conformers on which every
 shell-membership test and every stereo code agree have the same fingerprint at every level -/
 theorem run_congr (o : Opts) (m : MolG) (g₁ g₂ : Geo) (hw : g₁.within = g₂.within) (hs : g₁.stereo = g₂.stereo) :
     runFp o m g₁ = runFp o m g₂ := by
   cases g₁; cases g₂; simp_all
+
+/-! ## the geometric decisions under an isometry -/
+
+/-- shell membership is invariant under every isometry (any determinant) -/
+theorem within_isometry_invariant {R : Mat3} (hR : Orth R) (t : V3 ℝ) (mult : ℝ) (X : Nat → V3 ℝ) :
+    (Geo.ofCoords mult (fun a => move R t (X a))).within = (Geo.ofCoords mult X).within := by
+  funext k a b
+  simp only [Geo.ofCoords, dist_move hR]
+
+/-- the stereo codes are invariant under every proper rigid motion -/
+theorem stereo_rigid_invariant {R : Mat3} (hR : Orth R) (hdet : det R = 1) (t : V3 ℝ) (mult : ℝ)
+    (X : Nat → V3 ℝ) :
+    (Geo.ofCoords mult (fun a => move R t (X a))).stereo = (Geo.ofCoords mult X).stereo := by
+  funext c tuples
+  simp only [Geo.ofCoords, sub_move]
+  have h : tuples.map (fun t => (t.1, t.2.1, rot R (V3.sub (X t.2.2) (X c))))
+      = (tuples.map (fun t => (t.1, t.2.1, V3.sub (X t.2.2) (X c)))).map (nbrMap R) := by
+    rw [List.map_map]; rfl
+  rw [h, stereoIndicators_rot hR hdet]
+
+/-- both geometric decisions of a conformer are unchanged by a rotation followed by a translation -/
+theorem geo_rigid_invariant {R : Mat3} (hR : Orth R) (hdet : det R = 1) (t : V3 ℝ) (mult : ℝ)
+    (X : Nat → V3 ℝ) :
+    Geo.ofCoords mult (fun a => move R t (X a)) = Geo.ofCoords mult X := by
+  have hw := within_isometry_invariant hR t mult X
+  have hs := stereo_rigid_invariant hR hdet t mult X
+  cases h₁ : Geo.ofCoords mult (fun a => move R t (X a))
+  cases h₂ : Geo.ofCoords mult X
+  rw [h₁, h₂] at hw hs
+  simp_all
+
+/-- C01: the fingerprinter's whole run (every level, every shell, every identifier) is the same for a
+conformer and for its image under a rotation and a translation -/
+theorem rigid_invariant {R : Mat3} (hR : Orth R) (hdet : det R = 1) (t : V3 ℝ) (mult : ℝ)
+    (X : Nat → V3 ℝ) (o : Opts) (m : MolG) :
+    runFp o m (Geo.ofCoords mult (fun a => move R t (X a))) = runFp o m (Geo.ofCoords mult X) := by
+  rw [geo_rigid_invariant hR hdet t mult X]
+
+/-! ## stereo off: only `within` matters -/
+
+theorem atomTuples_stereo_off {o : Opts} (hs : o.stereo = false) (m : MolG) (g₁ g₂ : Geo)
+    (prev : List GShell) (a : Nat) (nb : List Nat) :
+    atomTuples o m g₁ prev a nb = atomTuples o m g₂ prev a nb := by
+  simp [atomTuples, hs]
+
+theorem shellIdent_stereo_off {o : Opts} (hs : o.stereo = false) (m : MolG) (g₁ g₂ : Geo)
+    (prev : List GShell) (level a : Nat) (nb : List Nat) :
+    shellIdent o m g₁ prev level a nb = shellIdent o m g₂ prev level a nb := by
+  simp only [shellIdent, atomTuples_stereo_off hs m g₁ g₂]
+
+theorem genLevel_stereo_off {o : Opts} (hs : o.stereo = false) (m : MolG) (g₁ g₂ : Geo)
+    (hw : g₁.within = g₂.within) (atoms : List Nat) (prev : List GShell) (k : Nat) (t : Intern) :
+    genLevel o m g₁ atoms prev k t = genLevel o m g₂ atoms prev k t := by
+  simp only [genLevel, hw, shellIdent_stereo_off hs m g₁ g₂]
+
+theorem stepState_stereo_off {o : Opts} (hs : o.stereo = false) (m : MolG) (g₁ g₂ : Geo)
+    (hw : g₁.within = g₂.within) (atoms : List Nat) (s : FState) :
+    stepState o m g₁ atoms s = stepState o m g₂ atoms s := by
+  simp only [stepState, genLevel_stereo_off hs m g₁ g₂ hw]
+
+theorem iterate_stereo_off {o : Opts} (hs : o.stereo = false) (m : MolG) (g₁ g₂ : Geo)
+    (hw : g₁.within = g₂.within) (atoms : List Nat) (fuel : Nat) (s : FState) :
+    iterate o m g₁ atoms fuel s = iterate o m g₂ atoms fuel s := by
+  induction fuel generalizing s with
+  | zero => rfl
+  | succ n ih =>
+    simp only [iterate, stepState_stereo_off hs m g₁ g₂ hw]
+    split
+    · rfl
+    · exact ih _
+
+/-- with stereo off the run never consults `g.stereo` -/
+theorem runFp_stereo_off {o : Opts} (hs : o.stereo = false) (m : MolG) (g₁ g₂ : Geo)
+    (hw : g₁.within = g₂.within) : runFp o m g₁ = runFp o m g₂ := by
+  simp only [runFp, iterate_stereo_off hs m g₁ g₂ hw]
+
+/-- C01 with stereo off: invariance under every isometry — rotations, translations and reflections -/
+theorem isometry_invariant_nostereo {R : Mat3} (hR : Orth R) (t : V3 ℝ) (mult : ℝ) (X : Nat → V3 ℝ)
+    {o : Opts} (hs : o.stereo = false) (m : MolG) :
+    runFp o m (Geo.ofCoords mult (fun a => move R t (X a))) = runFp o m (Geo.ofCoords mult X) :=
+  runFp_stereo_off hs m _ _ (within_isometry_invariant hR t mult X)
+
+/-! ## non-vacuity: the hypotheses are met by non-trivial motions -/
+
+/-- the 3-4-5 rotation about the z axis -/
+noncomputable def rot345 : Mat3 := ⟨3/5, -4/5, 0, 4/5, 3/5, 0, 0, 0, 1⟩
+
+/-- the mirror `z ↦ -z` -/
+noncomputable def mirrorZ : Mat3 := ⟨1, 0, 0, 0, 1, 0, 0, 0, -1⟩
+
+example : Orth rot345 ∧ det rot345 = 1 := by
+  refine ⟨⟨?_, ?_, ?_, ?_, ?_, ?_⟩, ?_⟩ <;> norm_num [rot345, det]
+
+example : Orth mirrorZ ∧ det mirrorZ = -1 := by
+  refine ⟨⟨?_, ?_, ?_, ?_, ?_, ?_⟩, ?_⟩ <;> norm_num [mirrorZ, det]
+
+/-- the rotation is not the identity: it moves the x unit vector -/
+example : rot rot345 ⟨1, 0, 0⟩ = ⟨3/5, 4/5, 0⟩ := by
+  apply v3_ext <;> norm_num [rot, rot345]
+
+/-- C01 instantiated at the 3-4-5 rotation and an arbitrary translation -/
+example (t : V3 ℝ) (mult : ℝ) (X : Nat → V3 ℝ) (o : Opts) (m : MolG) :
+    runFp o m (Geo.ofCoords mult (fun a => move rot345 t (X a))) = runFp o m (Geo.ofCoords mult X) :=
+  rigid_invariant (by refine ⟨?_, ?_, ?_, ?_, ?_, ?_⟩ <;> norm_num [rot345]) (by norm_num [rot345, det]) t mult X o m
 
 end E3fpVerif.Props.C01
